@@ -32,6 +32,7 @@ var c07VSettleMuts = []string{
 func genC07V(r *kernel.Rand) *kernel.Scenario {
 	sc := &kernel.Scenario{Config: map[string]int64{"trio": 1}}
 	c := sc.Config
+	c["ser"] = int64(r.Intn(2))
 	c["fifo"] = int64(r.Intn(2))
 	c["bus_max_us"] = int64([]int{100, 400}[r.Intn(2)])
 	c["react_max_us"] = int64([]int{50, 500}[r.Intn(2)])
